@@ -152,6 +152,12 @@ pub mod sync {
         static HELD: Cell<u32> = const { Cell::new(0) };
     }
 
+    /// Number of instrumented locks the calling thread holds right now (lets a harness assert
+    /// that user callbacks are not invoked from inside a critical section).
+    pub fn locks_held() -> u32 {
+        HELD.with(|h| h.get())
+    }
+
     fn before_lock(op: &'static str) {
         if HELD.with(|h| h.get()) > 0 {
             panic!("verif: lock acquisition (a yield point) inside a critical section");
